@@ -241,6 +241,19 @@ def run(ctx):
                                        "ascii_composer_on_stock_schemas": n_punct // 2}
     ctx.coverage["pattern_histories"] = {"affix_phony_segments": n_pat, "no_auto_commit": 2 * (n_pat // 3)}
 
+    # round 6: compositions of many segments of alternating kinds (phrase / punctuation): every segment is a record of its
+    # own wherever the code keeps per-segment records (the commit history holds 20), so the three text paths are compared
+    # on compositions beyond any such bound; typed through set_input (one composition) and through keys
+    def many(schema, n, by_keys):
+        unit = (["ni,", "hao."] if schema.startswith("luna") else ["a,", "hq.", "jd,"]) if schema in englib.STOCK else ["ab,", "c.", "d;"]
+        text = "".join(unit[j % len(unit)] for j in range(n))
+        typed = ["key %d 0" % ord(c) for c in text] if by_keys else ["input " + text.encode().hex()]
+        return ["getctx"] + typed + ["getctx", "commit", "getcommit", "getcommit"]
+    n_many = (8, 11, 12, 14, 23) if quick else tuple(range(2, 40))
+    stock += [(s, many(s, n, bk)) for s in ("luna_pinyin_fluid", "cangjie5_fluid") for n in n_many for bk in (False, True)]
+    synth += [(s, many(s, n, bk)) for s in englib.SYNTH_PUNCT for n in n_many for bk in (False, True)]
+    ctx.coverage["many_segment_compositions"] = {"segments": [2 * n for n in n_many], "schemas": 4, "typed": ["set_input", "keys"]}
+
     stats = collections.Counter()
     fails, mism, aborts, samples = {}, [], [], []
     for kind, hs in (("synth", synth), ("stock", stock)):
